@@ -188,7 +188,9 @@ func (o *Optimizer) buildFinalPlan(s Storage, fp Plan, stmt *SelectStmt) (FinalP
 				break
 			}
 		}
-		hasAggr = allInSelect
+		// (a statement made of aggregates stays an aggregate statement whether or
+		// not it selects what it groups by)
+		hasAggr = hasAggr || allInSelect
 	}
 	var ffp FinalPlan
 	if !hasAggr && stmt.GroupBy != nil && len(stmt.GroupBy.Fields) > 0 {
